@@ -213,7 +213,8 @@ def py_poly(e):
 def rule_axis_py(ctx, py):
     R = "C15.AXIS"
     # RDGridSpace.get_neighbors: each conditional append
-    f = py.fn("rdgridspace.RDGridSpace.get_neighbors")
+    from .. import pynorm as _pn
+    f = _pn.unrolled(py.fn("rdgridspace.RDGridSpace.get_neighbors"))     # a (condition, coordinates) table is read row by row
     disp = set()
     from .. import pysym
     def appends(s_):
